@@ -126,6 +126,11 @@ def run(chk, replay=None):
                         chk.violate('CLI: blank or odd lines inside a log stopped the run early or disturbed other lines', {'channel': chan, 'output': outc, 'rc': rc, 'lines_in': len(ls),
                                     'lines_out': nl, 'lines_expected': want.count(b'\n'), 'first_lines': [l.decode('utf-8', 'replace')[:80] for l in ls[:8]], 'stderr': se[-200:].decode('utf-8', 'replace')}, tags=['cli', 'abort', chan, outc])
     chk.streams.append({'stream': 'CLI: logs with interior blank / garbage lines x {file, gzip, 3-member gzip} x {stdout, --outputFile}', 'logs': 6 if th else 3})
+    # the whole command (Model/Job.v: main.go's Run end to end) against the CLI on small worlds (incl. inputs with a line over the limit): exit status, file system, standard output
+    from vlib import joblib
+    jrng = random.Random(chk.seed * 7919 + 707)
+    jpool = [l for l, _ in streams.grammar_lines(jrng, 25, 0.1) + streams.fixture_lines()[:8]]
+    joblib.correspondence(chk, jrng, 200 if chk.tier == 'thorough' else 80, jpool)
     chk.sample({'line': odd[7][:200].decode('utf-8', 'replace')}); chk.sample({'line': odd[-20][:200].decode('utf-8', 'replace')})
     chk.assumptions += ["stack depth and memory for extreme nesting are runtime behaviour: exercised up to 20,000 levels, not modelled",
                         "key paths handed to the scalar step are non-empty by construction in the model (init ++ [last]); the absence of other panics rests on the harness observing none"]
